@@ -64,6 +64,9 @@
 -/
 import CxxModel.Theorems.FnBody
 import CxxModel.Theorems.BaseItems
+import CxxModel.Theorems.FinalItems
+import CxxModel.Theorems.CtorDecl
+import CxxModel.Theorems.MembersN
 import CxxModel.Theorems.DeclGenItems
 import CxxModel.Blocks
 import CxxModel.Theorems.Events
@@ -682,6 +685,229 @@ example (env : Env) (hp : RulesProgress env.cfg = true) (hnf : env.faultAt = non
     (kw first : Tok) (pairs : List (Tok × Tok)) (bs : List (BaseItem × Tok)) (last : BaseItem)
     (ms : List (Member env F (core F (D + 1 + 1 + 1 + 1)))) : Member env F (core F (D + 1 + 1 + 1 + 1)) :=
   Member.clsB env hp hnf F D hskip kw first pairs bs last ms
+
+/-! ### `final` classes: `key N final… [: base-clause] {` -/
+
+/-- **`key N final… {` through `parse()`'s loop**: ONE class block, marked `final` iff at least one `final` is written after the
+    name (`fs = []` is the plain head); key, name, default access as for any class head. -/
+theorem C03_class_head_final (env : Env) (hc : env.cfg = genLexCfg) (F D : Nat) (w : World)
+    (kw first : Tok) (pairs : List (Tok × Tok)) (fs : List Tok) (ob : Tok) (bk b1 bmid b' : Buf)
+    (blk : Block) (rest : List Block) (hstack : w.stack = blk :: rest)
+    (hmu : w.muted = false) (hfa : ¬ env.faultAt = some w.delivered)
+    (htkw : tokenEofOk env.cfg w.buf = .ok (some kw, bk)) (hkw : isClassKey kw.value = true) (hkwt : kw.type = kw.value)
+    (htf : tokenEofOk env.cfg bk = .ok (some first, b1)) (hf : first.type = "NAME") (hfv : plainVal first.value = true)
+    (hall : ∀ p ∈ pairs, p.1.type = "DBL_COLON" ∧ p.2.type = "NAME" ∧ plainVal p.2.value = true)
+    (hy : Yields env.cfg b1 (pairs.flatMap (fun p => [p.1, p.2])) bmid)
+    (hfs : ∀ f ∈ fs, f.type = "final") (hyf : Yields env.cfg bmid (fs ++ [ob]) b') (hob : ob.type = "{") (hF : pairs.length + 2 ≤ F)
+    (hFf : fs.length + 1 ≤ F) :
+    ∃ (d : Option String) (bD : Buf) (w' : World) (ct : CTok),
+      getDoxygen env.cfg env.mcRe w.buf = .ok (d, bD) ∧ w'.buf = b' ∧ ct.value = kw.value ∧
+      w'.stack = w.stack ∧ w'.events = w.events ∧ w'.delivered = w.delivered ∧ w'.anon = w.anon ∧ w'.muted = w.muted ∧
+      w'.nextId = w.nextId ∧
+      interp env (mainBody F (core F (D + 1 + 1)) none) w =
+        (pushedWorld env (classHdrF ct first pairs [] (!fs.isEmpty) blk d) w', .ok (.inl none)) :=
+  toplevel_class_head_final env (by rw [hc]; exact gen_rules_progress) F D w kw first pairs fs ob bk b1 bmid b' blk rest hstack hmu hfa
+    htkw hkw hkwt htf hf hfv hall hy hfs hyf hob hF hFf
+
+/-- **`key N final… : base-clause {` through `parse()`'s loop**: the `final` flag and the base list are independent of each other -/
+theorem C03_class_head_final_bases (env : Env) (hc : env.cfg = genLexCfg) (F D : Nat) (w : World)
+    (kw first : Tok) (pairs : List (Tok × Tok)) (fs : List Tok) (colon : Tok) (bs : List (BaseItem × Tok)) (last : BaseItem) (ob : Tok) (bk b1 bmid bc bb b' : Buf)
+    (blk : Block) (rest : List Block) (hstack : w.stack = blk :: rest)
+    (hmu : w.muted = false) (hfa : ¬ env.faultAt = some w.delivered)
+    (htkw : tokenEofOk env.cfg w.buf = .ok (some kw, bk)) (hkw : isClassKey kw.value = true) (hkwt : kw.type = kw.value)
+    (htf : tokenEofOk env.cfg bk = .ok (some first, b1)) (hf : first.type = "NAME") (hfv : plainVal first.value = true)
+    (hall : ∀ p ∈ pairs, p.1.type = "DBL_COLON" ∧ p.2.type = "NAME" ∧ plainVal p.2.value = true)
+    (hy : Yields env.cfg b1 (pairs.flatMap (fun p => [p.1, p.2])) bmid)
+    (hfs : ∀ f ∈ fs, f.type = "final") (hyf : Yields env.cfg bmid (fs ++ [colon]) bc) (hcolon : colon.type = ":") (hFf : fs.length + 1 ≤ F)
+    (hbs : ∀ q ∈ bs, q.1.OK ∧ q.2.type = "," ∧ q.1.specs.length + q.1.pairs.length + 2 ≤ F)
+    (hlast : last.OK) (hlF : last.specs.length + last.pairs.length + 2 ≤ F)
+    (hyb : Yields env.cfg bc (bs.flatMap (fun q => q.1.toks ++ [q.2]) ++ last.toks) bb)
+    (htob : tokenEofOk env.cfg bb = .ok (some ob, b')) (hob : ob.type = "{") (hF : pairs.length + 2 ≤ F) (hFb : bs.length + 1 ≤ F) :
+    ∃ (d : Option String) (bD : Buf) (w' : World) (ct : CTok),
+      getDoxygen env.cfg env.mcRe w.buf = .ok (d, bD) ∧ w'.buf = b' ∧ ct.value = kw.value ∧
+      w'.stack = w.stack ∧ w'.events = w.events ∧ w'.delivered = w.delivered ∧ w'.anon = w.anon ∧ w'.muted = w.muted ∧
+      w'.nextId = w.nextId ∧
+      interp env (mainBody F (core F (D + 1 + 1)) none) w =
+        (pushedWorld env (classHdrF ct first pairs
+          (bs.map (fun q => q.1.denotes (defaultAccess kw.value)) ++ [last.denotes (defaultAccess kw.value)]) (!fs.isEmpty) blk d) w', .ok (.inl none)) :=
+  toplevel_class_head_final_bases env (by rw [hc]; exact gen_rules_progress) F D w kw first pairs fs colon bs last ob bk b1 bmid bc bb b' blk rest hstack hmu hfa
+    htkw hkw hkwt htf hf hfv hall hy hfs hyf hcolon hFf hbs hlast hlF hyb htob hob hF hFb
+
+example (env : Env) (hp : RulesProgress env.cfg = true) (hnf : env.faultAt = none) (F D : Nat) (hskip : ∀ i h, env.skip i h = false)
+    (kw first : Tok) (pairs : List (Tok × Tok)) (fs : List Tok) (bs : List (BaseItem × Tok)) (last : BaseItem)
+    (ms : List (Member env F (core F (D + 1 + 1 + 1 + 1)))) : List (Item env F (core F (D + 1 + 1 + 1 + 1))) :=
+  [Item.clsF env hp hnf F D hskip kw first pairs fs ms, Item.clsFB env hp hnf F D hskip kw first pairs fs bs last ms]
+
+example (env : Env) (hp : RulesProgress env.cfg = true) (hnf : env.faultAt = none) (F D : Nat) (hskip : ∀ i h, env.skip i h = false)
+    (kw first : Tok) (pairs : List (Tok × Tok)) (fs : List Tok) (bs : List (BaseItem × Tok)) (last : BaseItem)
+    (ms : List (Member env F (core F (D + 1 + 1 + 1 + 1)))) : List (Member env F (core F (D + 1 + 1 + 1 + 1))) :=
+  [Member.clsF env hp hnf F D hskip kw first pairs fs ms, Member.clsFB env hp hnf F D hskip kw first pairs fs bs last ms]
+
+/-! ### constructors: `N ( parameters ) qualifiers ;` in the body of a class named `N` -/
+
+/-- **a constructor declaration through `parse()`'s loop**, for ANY parameter list `_parse_parameters` decodes to `plist`
+    (`hparams`; instances: `C03_default_constructor`, `C03_constructor_parameters`): exactly ONE `on_class_method` for the
+    innermost open class with `constructor = True`, NO return type, the class's name, exactly those parameters, the access level
+    in force in THAT class and exactly the written qualifier flags; consumed exactly. -/
+theorem C03_constructor (env : Env) (hc : env.cfg = genLexCfg) (F D : Nat) (w : World)
+    (first op f semi : Tok) (plist : List Param) (quals : List Tok) (m' : Function) (bn bo b1 bc bq b' : Buf)
+    (blk : Block) (rest : List Block) (hstack : w.stack = blk :: rest) (hk : blk.hdr.kind = .cls)
+    (hcn : blk.hdr.cls.typename.segments.getLast?.bind PQSeg.nameAttr = some first.value)
+    (hmu : w.muted = false) (hfa : ¬ env.faultAt = some w.delivered)
+    (htok : tokenEofOk env.cfg w.buf = .ok (some first, bn))
+    (hty : first.type = "NAME") (htv : identVal first.value = true) (hne : first.value.isEmpty = false)
+    (hto : tokenEofOk env.cfg bn = .ok (some op, bo)) (hop : op.type = "(") (hopv : op.value ≠ "auto")
+    (htf : tokenEofOk env.cfg bo = .ok (some f, b1)) (hfs : f.type ≠ "*") (hfamp : f.type ≠ "&")
+    (hms : Gen.msvcConventions.contains f.value = false)
+    (hparams : ∀ (W : World) (f' : Tok), tokenEofOk env.cfg W.buf = .ok (some f', b1) → f'.type = f.type → f'.value = f.value →
+      ∃ w7, interp env (parseParametersStep F (core F (D + 1 + 1 + 1)) true) W = (w7, .ok (plist, false, [])) ∧ SameButLog W w7 ∧ w7.buf = bc)
+    (hyq : Yields env.cfg bc quals bq)
+    (hsemi : tokenEofOk env.cfg bq = .ok (some semi, b')) (hs : semi.type = ";") (hsv : semi.value = ";") (hFq : quals.length + 1 ≤ F)
+    (hF : 2 ≤ F) :
+    ∀ (d : Option String) (bD : Buf), getDoxygen env.cfg env.mcRe w.buf = .ok (d, bD) →
+    applyQuals { ctorFunction first.value d with parameters := plist, isMethod := true, constructor := true, access := blk.access }
+      (quals.map (·.value)) = some m' →
+    ∃ (w7 : World) (ct : CTok) (ev : Event),
+      interp env (mainBody F (core F (D + 1 + 1 + 1 + 1)) none) w = (w7, .ok (.inl none)) ∧
+      w7.buf = b' ∧ ct.value = first.value ∧ w7.stack = { blk with loc := .tok ct.sidx } :: rest ∧
+      w7.events = w.events ++ [ev] ∧ ev.kind = .item (.classMethod m') ∧
+      ev.stateId = blk.id ∧ ev.parentId = rest.head?.map (·.id) ∧
+      w7.delivered = w.delivered + 1 ∧ w7.anon = w.anon ∧ w7.muted = false ∧ w7.nextId = w.nextId :=
+  toplevel_ctor env (by rw [hc]; exact gen_rules_progress) F D w first op f semi plist quals m' bn bo b1 bc bq b' blk rest hstack hk hcn hmu hfa
+    htok hty htv hne hto hop hopv htf hfs hfamp hms hparams hyq hsemi hs hsv hFq hF
+
+/-- **`N ( ) qualifiers ;`**: the default constructor — no parameters -/
+theorem C03_default_constructor (env : Env) (hc : env.cfg = genLexCfg) (F D : Nat) (w : World)
+    (first op cp semi : Tok) (quals : List Tok) (m' : Function) (bn bo bc bq b' : Buf)
+    (blk : Block) (rest : List Block) (hstack : w.stack = blk :: rest) (hk : blk.hdr.kind = .cls)
+    (hcn : blk.hdr.cls.typename.segments.getLast?.bind PQSeg.nameAttr = some first.value)
+    (hmu : w.muted = false) (hfa : ¬ env.faultAt = some w.delivered)
+    (htok : tokenEofOk env.cfg w.buf = .ok (some first, bn))
+    (hty : first.type = "NAME") (htv : identVal first.value = true) (hne : first.value.isEmpty = false)
+    (hto : tokenEofOk env.cfg bn = .ok (some op, bo)) (hop : op.type = "(") (hopv : op.value ≠ "auto")
+    (htc : tokenEofOk env.cfg bo = .ok (some cp, bc)) (hcp : cp.type = ")") (hcpv : cp.value = ")")
+    (hyq : Yields env.cfg bc quals bq)
+    (hsemi : tokenEofOk env.cfg bq = .ok (some semi, b')) (hs : semi.type = ";") (hsv : semi.value = ";") (hFq : quals.length + 1 ≤ F)
+    (hF : 2 ≤ F) :
+    ∀ (d : Option String) (bD : Buf), getDoxygen env.cfg env.mcRe w.buf = .ok (d, bD) →
+    applyQuals { ctorFunction first.value d with parameters := [], isMethod := true, constructor := true, access := blk.access }
+      (quals.map (·.value)) = some m' →
+    ∃ (w7 : World) (ct : CTok) (ev : Event),
+      interp env (mainBody F (core F (D + 1 + 1 + 1 + 1)) none) w = (w7, .ok (.inl none)) ∧
+      w7.buf = b' ∧ ct.value = first.value ∧ w7.stack = { blk with loc := .tok ct.sidx } :: rest ∧
+      w7.events = w.events ++ [ev] ∧ ev.kind = .item (.classMethod m') ∧
+      ev.stateId = blk.id ∧ ev.parentId = rest.head?.map (·.id) ∧
+      w7.delivered = w.delivered + 1 ∧ w7.anon = w.anon ∧ w7.muted = false ∧ w7.nextId = w.nextId :=
+  C03_constructor env hc F D w first op cp semi [] quals m' bn bo bc bc bq b' blk rest hstack hk hcn hmu hfa htok hty htv hne hto hop hopv
+    htc (by rw [hcp]; decide) (by rw [hcp]; decide) (by rw [hcpv]; decide)
+    (fun W f' hW hft _ => parseParameters_empty_flex env F _ W f' bc hW (hft.trans hcp)) hyq hsemi hs hsv hFq hF
+
+/-- **`N ( S1 prefix1 n1 , … , Sk prefixk nk ) qualifiers ;`**: a constructor over a general parameter list (`PItemG`) -/
+theorem C03_constructor_parameters (env : Env) (hc : env.cfg = genLexCfg) (F D : Nat) (w : World)
+    (first op semi : Tok) (ps : List (PItemG × Tok)) (last : PItemG) (cp f : Tok) (prest : List Tok) (quals : List Tok) (m' : Function)
+    (bn bo b1 bc bq b' : Buf)
+    (blk : Block) (rest : List Block) (hstack : w.stack = blk :: rest) (hk : blk.hdr.kind = .cls)
+    (hcn : blk.hdr.cls.typename.segments.getLast?.bind PQSeg.nameAttr = some first.value)
+    (hmu : w.muted = false) (hfa : ¬ env.faultAt = some w.delivered)
+    (htok : tokenEofOk env.cfg w.buf = .ok (some first, bn))
+    (hty : first.type = "NAME") (htv : identVal first.value = true) (hne : first.value.isEmpty = false)
+    (hto : tokenEofOk env.cfg bn = .ok (some op, bo)) (hop : op.type = "(") (hopv : op.value ≠ "auto")
+    (hallp : ∀ q ∈ ps, q.1.OK env F D ∧ q.2.type = "," ∧ q.2.value ≠ ")")
+    (hlastp : last.OK env F D) (hcp : cp.type = ")") (hcpv : cp.value = ")")
+    (htoks : plistToks ps last cp = f :: prest)
+    (htf : tokenEofOk env.cfg bo = .ok (some f, b1)) (hfs : f.type ≠ "*") (hfamp : f.type ≠ "&")
+    (hms : Gen.msvcConventions.contains f.value = false)
+    (hyp : Yields env.cfg b1 prest bc) (hFp : ps.length + 1 ≤ F)
+    (hyq : Yields env.cfg bc quals bq)
+    (hsemi : tokenEofOk env.cfg bq = .ok (some semi, b')) (hs : semi.type = ";") (hsv : semi.value = ";") (hFq : quals.length + 1 ≤ F)
+    (hF : 2 ≤ F) :
+    ∀ (d : Option String) (bD : Buf), getDoxygen env.cfg env.mcRe w.buf = .ok (d, bD) →
+    applyQuals { ctorFunction first.value d with parameters := ps.map (fun q => q.1.param) ++ [last.param], isMethod := true, constructor := true, access := blk.access }
+      (quals.map (·.value)) = some m' →
+    ∃ (w7 : World) (ct : CTok) (ev : Event),
+      interp env (mainBody F (core F (D + 1 + 1 + 1 + 1)) none) w = (w7, .ok (.inl none)) ∧
+      w7.buf = b' ∧ ct.value = first.value ∧ w7.stack = { blk with loc := .tok ct.sidx } :: rest ∧
+      w7.events = w.events ++ [ev] ∧ ev.kind = .item (.classMethod m') ∧
+      ev.stateId = blk.id ∧ ev.parentId = rest.head?.map (·.id) ∧
+      w7.delivered = w.delivered + 1 ∧ w7.anon = w.anon ∧ w7.muted = false ∧ w7.nextId = w.nextId :=
+  C03_constructor env hc F D w first op f semi _ quals m' bn bo b1 bc bq b' blk rest hstack hk hcn hmu hfa htok hty htv hne hto hop hopv
+    htf hfs hfamp hms
+    (fun W f' hW hft hfv => parseParameters_gen_flex env F D ps last cp W b1 bc f f' prest hallp hlastp hcp hcpv htoks hW hft hfv hyp hFp)
+    hyq hsemi hs hsv hFq hF
+
+/-- **a destructor declaration `~N ( … ) qualifiers ;` through `parse()`'s loop** (`~N` is ONE token for the lexer), for ANY parameter list `_parse_parameters` decodes to `plist`
+    (`hparams`; instance: `C03_plain_destructor`): exactly ONE `on_class_method` for the
+    innermost open class with `destructor = True`, NO return type, the name `~N`, exactly those parameters, the access level
+    in force in THAT class and exactly the written qualifier flags; consumed exactly. -/
+theorem C03_destructor (env : Env) (hc : env.cfg = genLexCfg) (F D : Nat) (w : World)
+    (first : Tok) (nm : String) (op f semi : Tok) (plist : List Param) (quals : List Tok) (m' : Function) (bn bo b1 bc bq b' : Buf)
+    (blk : Block) (rest : List Block) (hstack : w.stack = blk :: rest) (hk : blk.hdr.kind = .cls)
+    (hcn : blk.hdr.cls.typename.segments.getLast?.bind PQSeg.nameAttr = some nm) (hval : first.value = "~" ++ nm)
+    (hmu : w.muted = false) (hfa : ¬ env.faultAt = some w.delivered)
+    (htok : tokenEofOk env.cfg w.buf = .ok (some first, bn))
+    (hty : first.type = "NAME") (htv : identVal first.value = true) (hne : nm.isEmpty = false)
+    (hto : tokenEofOk env.cfg bn = .ok (some op, bo)) (hop : op.type = "(") (hopv : op.value ≠ "auto")
+    (htf : tokenEofOk env.cfg bo = .ok (some f, b1)) (hfs : f.type ≠ "*") (hfamp : f.type ≠ "&")
+    (hms : Gen.msvcConventions.contains f.value = false)
+    (hparams : ∀ (W : World) (f' : Tok), tokenEofOk env.cfg W.buf = .ok (some f', b1) → f'.type = f.type → f'.value = f.value →
+      ∃ w7, interp env (parseParametersStep F (core F (D + 1 + 1 + 1)) true) W = (w7, .ok (plist, false, [])) ∧ SameButLog W w7 ∧ w7.buf = bc)
+    (hyq : Yields env.cfg bc quals bq)
+    (hsemi : tokenEofOk env.cfg bq = .ok (some semi, b')) (hs : semi.type = ";") (hsv : semi.value = ";") (hFq : quals.length + 1 ≤ F)
+    (hF : 2 ≤ F) :
+    ∀ (d : Option String) (bD : Buf), getDoxygen env.cfg env.mcRe w.buf = .ok (d, bD) →
+    applyQuals { ctorFunction first.value d with parameters := plist, isMethod := true, destructor := true, access := blk.access }
+      (quals.map (·.value)) = some m' →
+    ∃ (w7 : World) (ct : CTok) (ev : Event),
+      interp env (mainBody F (core F (D + 1 + 1 + 1 + 1)) none) w = (w7, .ok (.inl none)) ∧
+      w7.buf = b' ∧ ct.value = first.value ∧ w7.stack = { blk with loc := .tok ct.sidx } :: rest ∧
+      w7.events = w.events ++ [ev] ∧ ev.kind = .item (.classMethod m') ∧
+      ev.stateId = blk.id ∧ ev.parentId = rest.head?.map (·.id) ∧
+      w7.delivered = w.delivered + 1 ∧ w7.anon = w.anon ∧ w7.muted = false ∧ w7.nextId = w.nextId :=
+  toplevel_dtor env (by rw [hc]; exact gen_rules_progress) F D w first nm op f semi plist quals m' bn bo b1 bc bq b' blk rest hstack hk hcn hval hmu hfa
+    htok hty htv hne hto hop hopv htf hfs hfamp hms hparams hyq hsemi hs hsv hFq hF
+
+/-- **`~N ( ) qualifiers ;`**: the destructor as it is written in practice -/
+theorem C03_plain_destructor (env : Env) (hc : env.cfg = genLexCfg) (F D : Nat) (w : World)
+    (first : Tok) (nm : String) (op cp semi : Tok) (quals : List Tok) (m' : Function) (bn bo bc bq b' : Buf)
+    (blk : Block) (rest : List Block) (hstack : w.stack = blk :: rest) (hk : blk.hdr.kind = .cls)
+    (hcn : blk.hdr.cls.typename.segments.getLast?.bind PQSeg.nameAttr = some nm) (hval : first.value = "~" ++ nm)
+    (hmu : w.muted = false) (hfa : ¬ env.faultAt = some w.delivered)
+    (htok : tokenEofOk env.cfg w.buf = .ok (some first, bn))
+    (hty : first.type = "NAME") (htv : identVal first.value = true) (hne : nm.isEmpty = false)
+    (hto : tokenEofOk env.cfg bn = .ok (some op, bo)) (hop : op.type = "(") (hopv : op.value ≠ "auto")
+    (htc : tokenEofOk env.cfg bo = .ok (some cp, bc)) (hcp : cp.type = ")") (hcpv : cp.value = ")")
+    (hyq : Yields env.cfg bc quals bq)
+    (hsemi : tokenEofOk env.cfg bq = .ok (some semi, b')) (hs : semi.type = ";") (hsv : semi.value = ";") (hFq : quals.length + 1 ≤ F)
+    (hF : 2 ≤ F) :
+    ∀ (d : Option String) (bD : Buf), getDoxygen env.cfg env.mcRe w.buf = .ok (d, bD) →
+    applyQuals { ctorFunction first.value d with parameters := [], isMethod := true, destructor := true, access := blk.access }
+      (quals.map (·.value)) = some m' →
+    ∃ (w7 : World) (ct : CTok) (ev : Event),
+      interp env (mainBody F (core F (D + 1 + 1 + 1 + 1)) none) w = (w7, .ok (.inl none)) ∧
+      w7.buf = b' ∧ ct.value = first.value ∧ w7.stack = { blk with loc := .tok ct.sidx } :: rest ∧
+      w7.events = w.events ++ [ev] ∧ ev.kind = .item (.classMethod m') ∧
+      ev.stateId = blk.id ∧ ev.parentId = rest.head?.map (·.id) ∧
+      w7.delivered = w.delivered + 1 ∧ w7.anon = w.anon ∧ w7.muted = false ∧ w7.nextId = w.nextId :=
+  C03_destructor env hc F D w first nm op cp semi [] quals m' bn bo bc bc bq b' blk rest hstack hk hcn hval hmu hfa htok hty htv hne hto hop hopv
+    htc (by rw [hcp]; decide) (by rw [hcp]; decide) (by rw [hcpv]; decide)
+    (fun W f' hW hft _ => parseParameters_empty_flex env F _ W f' bc hW (hft.trans hcp)) hyq hsemi hs hsv hFq hF
+
+/-- **classes that declare constructors and destructors are pieces of whole sources**: `key … N { members } ;` is an `Item`
+    when its members are `MemberN (nameIs N)` — every ordinary `Member` (`Member.toN`), `N ( ) quals ;` (`MemberN.ctor0`) and
+    `~N ( ) quals ;` (`MemberN.dtor0`) — so `parse_source` / `C01_whole_source` report, for such a class, the block start, one
+    callback per member in order (constructors and destructors flagged as such, under the access level in force) and the block
+    end -/
+example (env : Env) (hp : RulesProgress env.cfg = true) (hnf : env.faultAt = none) (F D : Nat) (hskip : ∀ i h, env.skip i h = false)
+    (nm : String) (kw first : Tok) (pairs : List (Tok × Tok)) (c0 op cp semi d0 : Tok) (quals : List Tok)
+    (ms : List (Member env F (core F (D + 1 + 1 + 1 + 1)))) : Item env F (core F (D + 1 + 1 + 1 + 1)) :=
+  Item.clsN env hp hnf F D hskip nm kw first pairs
+    (ms.map (fun m => m.toN (nameIs nm)) ++ [MemberN.ctor0 env hp hnf F D nm c0 op cp quals semi, MemberN.dtor0 env hp hnf F D nm d0 op cp quals semi])
+
+/-- non-vacuity of the qualifier hypothesis: a constructor record accepts the empty qualifier list and stays a constructor
+    without a return type -/
+example (n : String) (d : Option String) (ps : List Param) (acc : Option String) :
+    ∃ m', applyQuals { ctorFunction n d with parameters := ps, isMethod := true, constructor := true, access := acc } [] = some m' ∧
+      m'.constructor = true ∧ m'.returnType = none ∧ m'.parameters = ps := ⟨_, rfl, rfl, rfl, rfl⟩
 
 /-- non-vacuity: `protected virtual ns::B...` is a well-formed base; it denotes a virtual, protected pack base whatever the
     default is, and `B` alone takes the default -/
